@@ -1,5 +1,5 @@
 /*VERIF
-{ "tu": "src/queue.c", "enforce": "_dispatch_lane_resume_slow", "props": ["C06"], "nondet_volatile": true, "timeout": 120,
+{ "tu": "src/queue.c", "enforce": "_dispatch_lane_resume_slow", "props": ["C06", "C15"], "nondet_volatile": true, "timeout": 120,
   "assumes": ["rely (while the side lock is held): the side-count bit of dq_state is set iff dq_side_suspend_cnt > 0, and dq_side_suspend_cnt is stable"],
   "stub_note": "side lock lock/unlock, _dispatch_lane_resume (retry): logged calls" }
 VERIF*/
